@@ -325,10 +325,12 @@ func runCheck(o *Options) int {
 	replayDir := filepath.Join(o.Out, "replay")
 	os.MkdirAll(replayDir, 0o755)
 	var knownHit []string
+	nKnownOb := 0
 	for _, g := range failed {
 		if f := kf.match(o.Prop, g.Name); f != nil {
 			fmt.Printf("KNOWN-FINDING: property=%s %s %s\n", o.Prop, g.Name, f.What)
 			knownHit = append(knownHit, g.Name)
+			nKnownOb++
 			continue
 		}
 		violations++
@@ -400,8 +402,13 @@ func runCheck(o *Options) int {
 			"wall_s":      wall,
 			"violations":  violations,
 			"coverage": map[string]interface{}{
-				"obligations":              nOb,
+				// obligations: those this run claims proved. An obligation listed in known_findings.txt as a recorded,
+				// unrepaired defect is generated and fails as expected; it is counted apart, not among the proved ones.
+				"obligations":              nOb - nKnownOb,
 				"discharged":               nDis,
+				"obligations_generated":    nOb,
+				"obligations_failing_as_listed_known_findings": nKnownOb,
+				"explanation":              proofExplanation(nKnownOb),
 				"checker_cmd":              strings.Join(os.Args, " "),
 				"trusted_base":             trustedBase(w, trusted),
 				"functions_under_contract": funcs,
@@ -511,4 +518,12 @@ func assumptions(w *World, prop string, results []*FuncResult, trusted []string)
 	}
 	sort.Strings(out[3:])
 	return out
+}
+
+func proofExplanation(nKnown int) string {
+	s := "obligations = verification conditions generated from /repo's current source for the functions under contract (vacuity covers included) and claimed proved; discharged = those a solver answered unsat (covers: sat)."
+	if nKnown > 0 {
+		s += fmt.Sprintf(" %d further obligation(s) were generated and failed; each is listed in /verif/known_findings.txt as a genuine defect of the code that is recorded rather than repaired (see coverage.known_findings and the KNOWN-FINDING lines of the run); they are not counted as proved.", nKnown)
+	}
+	return s
 }
